@@ -1,6 +1,7 @@
 package interp
 
 import (
+	"os"
 	"fmt"
 	"go/token"
 	"go/types"
@@ -30,6 +31,8 @@ type thread struct {
 	lastEv  *event
 	crashed bool
 	held    []int // ids of the mutexes this thread holds
+	spins   int   // mutex acquisitions since the thread last blocked (busy-wait detection)
+	yielded bool  // gave up the processor inside a busy-wait loop
 }
 
 type mutexState struct {
@@ -162,7 +165,14 @@ func (i *interpreter) finishThreads() {
 
 func (i *interpreter) pickNext(from *thread) *thread {
 	var quiescing *thread
+	var spinner *thread
 	pick := func(t *thread) bool {
+		if t.state == tRunnable && t.yielded {
+			if spinner == nil {
+				spinner = t
+			}
+			return false
+		}
 		if t.state == tRunnable {
 			return true
 		}
@@ -183,6 +193,9 @@ func (i *interpreter) pickNext(from *thread) *thread {
 				return t
 			}
 		}
+	}
+	if spinner != nil {
+		return spinner // only busy-waiting threads are left runnable
 	}
 	return quiescing
 }
@@ -235,6 +248,7 @@ func (i *interpreter) describeBlocked() string {
 }
 
 func (i *interpreter) block(th *thread, on interface{}) {
+	th.spins = 0
 	th.state = tBlocked
 	th.waitOn = on
 	i.switchFrom(th)
@@ -294,6 +308,16 @@ func (i *interpreter) wgOf(p *value) *wgState {
 func (i *interpreter) mutexLock(fr *frame, p *value) {
 	m := i.mutexOf(p, fr)
 	th := fr.th
+	// a thread that keeps taking locks without ever blocking is busy-waiting (the pool's
+	// getGengine polls this way): let the others run before it polls again
+	th.spins++
+	if th.spins > 2000 && len(th.held) == 0 {
+		th.spins = 0
+		th.yielded = true
+		th.state = tRunnable
+		i.switchFrom(th)
+		th.yielded = false
+	}
 	for m.holder != nil {
 		i.block(th, m)
 	}
@@ -377,9 +401,93 @@ type pendingSend struct {
 
 func (i *interpreter) wakeChan(ch *chanv) {
 	for _, t := range i.threads {
-		if t.state == tBlocked && t.waitOn == ch {
-			t.state = tRunnable
+		if t.state != tBlocked {
+			continue
 		}
+		if t.waitOn == ch {
+			t.state = tRunnable
+		} else if sw, ok := t.waitOn.(*selectWait); ok {
+			for _, c := range sw.chs {
+				if c == ch {
+					t.state = tRunnable
+				}
+			}
+		}
+	}
+}
+
+// selectWait is what a thread blocked in a select waits on.
+type selectWait struct{ chs []*chanv }
+
+// selectOp models a select statement: among the cases that can proceed now one is
+// chosen (every choice is explored); a blocking select with none waits for any of
+// its channels. A send case is ready when the buffer has room or a receiver cannot
+// be told apart from a sender in this model, so sends on a full or unbuffered
+// channel are never ready (unsupported if nothing else can ever proceed).
+func (i *interpreter) selectOp(fr *frame, instr *ssa.Select) value {
+	th := fr.th
+	for {
+		var ready []int
+		var chs []*chanv
+		sendOnly := true
+		for k, st := range instr.States {
+			ch, _ := fr.get(st.Chan).(*chanv)
+			if ch == nil {
+				continue
+			}
+			chs = append(chs, ch)
+			if st.Dir == types.RecvOnly {
+				sendOnly = false
+				if len(ch.buf) > 0 || len(ch.sendq) > 0 || ch.closed {
+					ready = append(ready, k)
+				}
+			} else if ch.closed || len(ch.buf) < ch.cap {
+				ready = append(ready, k)
+			}
+		}
+		if len(ready) > 0 {
+			k := ready[i.chooseN(len(ready))]
+			st := instr.States[k]
+			ch := fr.get(st.Chan).(*chanv)
+			res := tuple{k, false}
+			var got value
+			if st.Dir == types.RecvOnly {
+				v, ok := i.chanRecv(fr, ch)
+				got, res[1] = v, ok
+			} else {
+				i.chanSend(fr, ch, fr.get(st.Send))
+			}
+			for j, s2 := range instr.States {
+				if s2.Dir == types.RecvOnly {
+					if j == k {
+						res = append(res, got)
+					} else {
+						c2, _ := fr.get(s2.Chan).(*chanv)
+						var et types.Type
+						if c2 != nil {
+							et = c2.elemT
+						} else {
+							et = s2.Chan.Type().Underlying().(*types.Chan).Elem()
+						}
+						res = append(res, zero(et))
+					}
+				}
+			}
+			return res
+		}
+		if !instr.Blocking {
+			res := tuple{-1, false}
+			for _, s2 := range instr.States {
+				if s2.Dir == types.RecvOnly {
+					res = append(res, zero(s2.Chan.Type().Underlying().(*types.Chan).Elem()))
+				}
+			}
+			return res
+		}
+		if len(chs) > 0 && sendOnly {
+			panic(unsupported{"blocking select with only send cases on full or unbuffered channels"})
+		}
+		i.block(th, &selectWait{chs: chs})
 	}
 }
 
@@ -674,6 +782,13 @@ func (i *interpreter) trackAlloc(fr *frame, instr *ssa.Alloc, cell *value) {
 		return
 	}
 	for _, s := range i.cfg.TrackAllocs {
+		if s == "*" {
+			// every escaping local of the engine and AST packages (captured by the goroutines they start)
+			if pk := fr.fn.Pkg; pk != nil && !strings.Contains(pk.Pkg.Path(), "/zz_verif") && strings.Contains(pk.Pkg.Path(), "bilibili/gengine") {
+				i.cellLoc[cell] = i.locByName(fmt.Sprintf("var:%s@%s#%d", instr.Comment, fr.fn.Name(), len(i.cellLoc)), false)
+			}
+			continue
+		}
 		if s == instr.Comment {
 			i.cellLoc[cell] = i.locByName(fmt.Sprintf("var:%s@%s#%d", s, fr.fn.Name(), len(i.cellLoc)), false)
 		}
@@ -698,17 +813,25 @@ func (i *interpreter) relevantEvents() ([]*event, map[*event]*event) {
 		}
 	}
 	written := map[int]bool{}
+	accessors := map[int]map[int]bool{}
 	for _, e := range i.events {
 		if e.kind == "write" {
 			written[e.obj] = true
+		}
+		if e.kind == "write" || e.kind == "read" {
+			if accessors[e.obj] == nil {
+				accessors[e.obj] = map[int]bool{}
+			}
+			accessors[e.obj][e.th] = true
 		}
 	}
 	keep := func(e *event) bool {
 		if e.kind == "lock" || e.kind == "unlock" {
 			return len(users[e.obj]) > 1
 		}
-		if e.kind == "read" {
-			return written[e.obj] // a location nobody writes cannot race
+		if e.kind == "read" || e.kind == "write" {
+			// a location nobody writes, or that only one thread touches, cannot race
+			return written[e.obj] && len(accessors[e.obj]) > 1
 		}
 		return true
 	}
@@ -941,8 +1064,9 @@ func (i *interpreter) requireJoined(ret string) {
 	er := rets[len(rets)-1]
 	var late []*smt.Term
 	var names []string
-	for _, e := range i.events {
-		if e.th == er.th || e.id > er.id && false {
+	rel, _ := i.relevantEvents()
+	for _, e := range rel {
+		if e.th == er.th {
 			continue
 		}
 		if e.kind == "mark" || e.kind == "read" || e.kind == "write" {
@@ -993,6 +1117,34 @@ func (i *interpreter) findRaces(filter func(loc string) bool) []racePair {
 		}
 	}
 	seen := map[string]bool{}
+	// cheap pre-filter: pairs ordered by program order, spawn and channel hand-off in every schedule
+	spawnOf := map[int]*event{}
+	for _, e := range i.events {
+		if e.kind == "spawn" {
+			spawnOf[e.obj] = e
+		}
+	}
+	var before func(x, y *event, depth int) bool
+	before = func(x, y *event, depth int) bool {
+		// is x an ancestor of y?
+		for cur := y; cur != nil; {
+			if cur == x {
+				return true
+			}
+			if cur.th == x.th {
+				return cur.id > x.id
+			}
+			if cur.kind == "chrecv" && cur.src != nil && depth < 8 && before(x, cur.src, depth+1) {
+				return true
+			}
+			if cur.kind == "begin" {
+				cur = spawnOf[cur.th]
+				continue
+			}
+			cur = cur.prev
+		}
+		return false
+	}
 	for _, evs := range byLoc {
 		for a := 0; a < len(evs); a++ {
 			for b := a + 1; b < len(evs); b++ {
@@ -1005,6 +1157,9 @@ func (i *interpreter) findRaces(filter func(loc string) bool) []racePair {
 				}
 				if commonLock(x.locks, y.locks) {
 					continue // both inside critical sections of one mutex: never adjacent
+				}
+				if before(x, y, 0) || before(y, x, 0) {
+					continue // ordered in every schedule
 				}
 				key := fmt.Sprintf("%s|%s:%s|%s:%s", locBase(x.name), x.kind, x.fn, y.kind, y.fn)
 				if seen[key] {
@@ -1020,6 +1175,9 @@ func (i *interpreter) findRaces(filter func(loc string) bool) []racePair {
 				} else if r == smt.Unknown {
 					i.res.Unknowns++
 					i.unknown++
+					if os.Getenv("VCHECK_DEBUG") != "" {
+						fmt.Fprintf(os.Stderr, "race query unknown (%s vs %s on %s): %s\n", x.fn, y.fn, x.name, i.solver.LastError)
+					}
 				}
 			}
 		}
